@@ -66,7 +66,8 @@ def row_of(skind, ckind, i):
     if ckind == "raw":
         return b"xyz%d" % i
     if ckind == "nonobject":
-        return [1, i]
+        # truthy and falsy non-object JSON values (falsy ones added after seeded change C32-a)
+        return ([1, i], [], 0, "", False, "abc", 7)[i % 7]
     if ckind == "other":
         return {"x": i} if struct else {"foo": i}
     if ckind == "mnvr":
